@@ -330,6 +330,17 @@ def sum_programs():
             progs.append({"vars": mixed, "cons": [("sum", kind, list(range(k)), sum(lo for lo, _ in mixed[:k]) + 2)]})
             if k >= 3:
                 progs.append({"vars": mixed, "cons": [("sum", kind, [0] + list(range(k - 1)), 3)]})  # a repeated variable
+    # signed domains (negative lower bounds, domains not starting at 0): every rotation of the variable order, 2..5 terms, targets at the
+    # low end, middle and high end of the reachable range: the partial-sum auxiliaries' bounds depend on the order and signs of the tail
+    signed = [(-1, 1), (0, 2), (-2, 0), (-1, 0), (1, 2)]
+    for kind in ("eq", "le", "ge"):
+        for k in range(2, 6):
+            for r in range(5):
+                idx = [(r + j) % 5 for j in range(k)]
+                lo = sum(signed[i][0] for i in idx)
+                hi = sum(signed[i][1] for i in idx)
+                for t in sorted({lo + 1, (lo + hi) // 2, hi - 1}):
+                    progs.append({"vars": signed, "cons": [("sum", kind, idx, t)]})
     return progs
 
 
